@@ -979,6 +979,204 @@ theorem sync_badfd (fs : Files) (fd : Nat) (hr : fs.resolve fd = none) (off len 
 example : syncRead ⟨[⟨[1, 2, 3], []⟩], [(0, true)]⟩ 0 2 8 = (1, [3]) := by decide
 example : (writeBytes [1, 2] 4 [9]) = [1, 2, 0, 0, 9] := by decide
 
+/-! ## a dropped ring: its pending operations never complete and never take effect -/
+
+/-- ring ids in the registry are below the allocation counter -/
+def HostWF (h : Host) : Prop := ∀ kr ∈ h.rings, kr.1 < h.nextRing
+
+theorem HostWF_step {h : Host} (hw : HostWF h) (op : HOp) : HostWF (h.step op).1 := by
+  cases op with
+  | newRing entries =>
+    simp only [Host.step]
+    split
+    · exact hw
+    · intro kr hkr
+      rcases List.mem_append.mp hkr with hkr | hkr
+      · exact Nat.lt_succ_of_lt (hw kr hkr)
+      · simp only [List.mem_singleton] at hkr; subst hkr; exact Nat.lt_succ_self _
+  | dropRing id => intro kr hkr; exact hw kr (List.mem_filter.mp hkr).1
+  | ring id rop =>
+    simp only [Host.step]
+    split
+    · exact hw
+    · intro kr hkr
+      obtain ⟨kr', hm, he⟩ := setRing_keys _ _ _ kr hkr
+      rw [← he]; exact hw kr' hm
+  | advance dt => exact hw
+  | crash => intro kr hkr; simp [Host.step] at hkr
+  | fwrite fd off d => exact hw
+  | fread fd off len => exact hw
+  | fsync fd => exact hw
+  | fclose fd => simp only [Host.step]; split <;> exact hw
+  | fopen p => simp only [Host.step]; split <;> exact hw
+
+theorem HostWF_final (ops : List HOp) : ∀ {h : Host}, HostWF h → HostWF (Host.final h ops) := by
+  induction ops with
+  | nil => intro h hw; exact hw
+  | cons op ops ih => intro h hw; exact ih (HostWF_step hw op)
+
+theorem lookup_none_of_not_key {id : Nat} : ∀ {rings : List (Nat × RingSt)}, (∀ kr ∈ rings, kr.1 ≠ id) →
+    lookupRing id rings = none
+  | [], _ => rfl
+  | (k, r) :: rest, h => by
+    have hk : k ≠ id := h (k, r) List.mem_cons_self
+    simp only [lookupRing, if_neg hk]
+    exact lookup_none_of_not_key (fun kr hkr => h kr (List.mem_cons_of_mem _ hkr))
+
+theorem lookup_some_key {id : Nat} : ∀ {rings : List (Nat × RingSt)}, (∃ kr ∈ rings, kr.1 = id) →
+    ∃ r, lookupRing id rings = some r
+  | [], h => by obtain ⟨kr, hkr, _⟩ := h; cases hkr
+  | (k, r) :: rest, h => by
+    by_cases hk : k = id
+    · exact ⟨r, by simp [lookupRing, hk]⟩
+    · obtain ⟨kr, hkr, he⟩ := h
+      rcases List.mem_cons.mp hkr with rfl | hm
+      · exact absurd he hk
+      · obtain ⟨r', hr'⟩ := lookup_some_key (rings := rest) ⟨kr, hm, he⟩
+        exact ⟨r', by simp [lookupRing, hk, hr']⟩
+
+/-- id is gone and can never come back -/
+def Gone (id : Nat) (h : Host) : Prop := id < h.nextRing ∧ ∀ kr ∈ h.rings, kr.1 ≠ id
+
+theorem Gone_step {id : Nat} {h : Host} (hg : Gone id h) (op : HOp) : Gone id (h.step op).1 := by
+  obtain ⟨h1, h2⟩ := hg
+  cases op with
+  | newRing entries =>
+    simp only [Host.step]
+    split
+    · exact ⟨h1, h2⟩
+    · refine ⟨Nat.lt_succ_of_lt h1, ?_⟩
+      intro kr hkr
+      rcases List.mem_append.mp hkr with hkr | hkr
+      · exact h2 kr hkr
+      · simp only [List.mem_singleton] at hkr; subst hkr; exact Nat.ne_of_gt h1
+  | dropRing id' => exact ⟨h1, fun kr hkr => h2 kr (List.mem_filter.mp hkr).1⟩
+  | ring id' rop =>
+    simp only [Host.step]
+    split
+    · exact ⟨h1, h2⟩
+    · refine ⟨h1, ?_⟩
+      intro kr hkr
+      obtain ⟨kr', hm, he⟩ := setRing_keys _ _ _ kr hkr
+      rw [← he]; exact h2 kr' hm
+  | advance dt => exact ⟨h1, h2⟩
+  | crash => exact ⟨h1, by simp [Host.step]⟩
+  | fwrite fd off d => exact ⟨h1, h2⟩
+  | fread fd off len => exact ⟨h1, h2⟩
+  | fsync fd => exact ⟨h1, h2⟩
+  | fclose fd => simp only [Host.step]; split <;> exact ⟨h1, h2⟩
+  | fopen p => simp only [Host.step]; split <;> exact ⟨h1, h2⟩
+
+theorem Gone_final {id : Nat} (ops : List HOp) : ∀ {h : Host}, Gone id h → Gone id (Host.final h ops) := by
+  induction ops with
+  | nil => intro h hg; exact hg
+  | cons op ops ih => intro h hg; exact ih (Gone_step hg op)
+
+/-- **Ring dropped mid-flight.** On any reachable host, once a ring is dropped — with entries queued, in flight, or
+    matured and unreaped — it stays unknown whatever happens next (new rings never reuse its id): no operation on it
+    yields a completion or changes a file. Its pending operations are simply gone; "exactly one completion" is a
+    promise about rings that live (`exactly_once`), and the buffers of the forgotten operations are never touched
+    (nothing executes them). -/
+theorem dropped_ring_forgotten (fs : Files) (pre ops : List HOp) (id : Nat) (r : RingSt)
+    (hl : lookupRing id (Host.final (Host.init fs) pre).rings = some r) (op : ROp) :
+    let h' := Host.final ((Host.final (Host.init fs) pre).step (.dropRing id)).1 ops
+    lookupRing id h'.rings = none ∧ h'.step (.ring id op) = (h', goneOut op) := by
+  intro h'
+  have hw : HostWF (Host.final (Host.init fs) pre) := HostWF_final pre (h := Host.init fs) (by intro kr hkr; simp [Host.init] at hkr)
+  have hlt : id < (Host.final (Host.init fs) pre).nextRing := hw (id, r) (lookup_mem hl)
+  have hg0 : Gone id ((Host.final (Host.init fs) pre).step (.dropRing id)).1 := by
+    refine ⟨hlt, ?_⟩
+    intro kr hkr
+    have := (List.mem_filter.mp hkr).2
+    simpa using this
+  have hg := Gone_final ops hg0
+  have hn : lookupRing id h'.rings = none := lookup_none_of_not_key hg.2
+  exact ⟨hn, gone_ring_inert h' id hn op⟩
+
+/-! ## the durable image: what a crash leaves, and what changes it -/
+
+def durables (fs : Files) : List (List Nat) := fs.inodes.map (·.durable)
+
+theorem durables_syncWrite (fs : Files) (fd off : Nat) (d : List Nat) : durables (syncWrite fs fd off d).1 = durables fs := by
+  simp only [syncWrite]
+  split
+  · rename_i p i hr
+    simp only [durables, List.map_set]
+    have hi : fs.inodes[p]? = some i := by
+      simp only [Files.resolve] at hr
+      split at hr
+      · split at hr
+        · injection hr with hr; injection hr with h1 h2; subst h1; subst h2; assumption
+        · cases hr
+      · cases hr
+    apply List.ext_getElem?
+    intro n
+    by_cases hn : n = p
+    · subst hn
+      obtain ⟨hlt, hget⟩ := List.getElem?_eq_some_iff.mp hi
+      simp [hlt, hget]
+    · simp [Ne.symm hn]
+  · rfl
+
+/-- **Durable image.** Only an executed `fsync` changes what a crash would leave: every other host step — pushes,
+    submits (so an fsync merely *in flight*, even matured but unreaped, changes nothing), cancels, time, reads and
+    writes through a ring or the shim, ring creation and drop, close / open — leaves every inode's durable bytes as
+    they were; and `crash` makes the live content equal to that image, forgets all rings, closes all fds. -/
+theorem durable_image (h : Host) :
+    (∀ op : HOp, (∀ fd, op ≠ .fsync fd) → (∀ id pick, op ≠ .ring id (.next pick)) →
+        durables (h.step op).1.files = durables h.files) ∧
+    (∀ id pick r, lookupRing id h.rings = some r →
+        (∀ x ∈ pool (promote r h.now), ∀ fd, x.apply ≠ .fsync fd) →
+        durables (h.step (.ring id (.next pick))).1.files = durables h.files) ∧
+    ((h.step .crash).1.files.inodes.map (·.content) = durables h.files ∧
+     durables (h.step .crash).1.files = durables h.files ∧ (h.step .crash).1.rings = [] ∧
+     ∀ fd, (h.step .crash).1.files.resolve fd = none) := by
+  refine ⟨?_, ?_, ?_⟩
+  · intro op hnf hnn
+    cases op with
+    | newRing entries => simp only [Host.step]; split <;> rfl
+    | dropRing id => rfl
+    | ring id rop =>
+      simp only [Host.step]
+      split
+      · rfl
+      · rename_i r hl
+        have := files_only_by_next h.now h.files r rop (fun pick hp => hnn id pick (by rw [hp]))
+        simp only [this]
+    | advance dt => rfl
+    | crash => simp [Host.step, crashFiles, durables, Function.comp_def]
+    | fwrite fd off d => exact durables_syncWrite _ _ _ _
+    | fread fd off len => rfl
+    | fsync fd => exact absurd rfl (hnf fd)
+    | fclose fd => simp only [Host.step]; split <;> rfl
+    | fopen p => simp only [Host.step]; split <;> rfl
+  · intro id pick r hl hnof
+    simp only [Host.step, hl, ringStep]
+    split
+    · rfl
+    · rfl
+    · split
+      · rfl
+      · rename_i x ready' hpop
+        have hx : x ∈ pool (promote r h.now) :=
+          List.mem_append_right _ ((popPick_perm hpop).mem_iff.mpr List.mem_cons_self)
+        have hno := hnof x hx
+        cases hxa : x.apply with
+        | read fd off len => simp [exec]
+        | write fd off d => simp only [exec]; exact durables_syncWrite _ _ _ _
+        | fsync fd => exact absurd hxa (hno fd)
+        | imm e => simp [exec]
+  · refine ⟨by simp [Host.step, crashFiles, durables, Function.comp_def], by simp [Host.step, crashFiles, durables, Function.comp_def], rfl, ?_⟩
+    intro fd
+    simp only [Host.step, crashFiles, Files.resolve, List.getElem?_map]
+    cases h.files.fds[fd]? with
+    | none => rfl
+    | some q => rfl
+
+example : durables (Host.final (Host.init ⟨[⟨[1], [1]⟩], [(0, true)]⟩)
+    [.newRing 2, .ring 0 (.push ⟨1, .write 0 0 [7], false⟩), .ring 0 (.push ⟨2, .fsync 0, false⟩), .ring 0 (.submit [0, 0]),
+     .ring 0 .cqsync, .ring 0 (.next 0), .crash]).files = [[1]] := by decide
+
 /-- What a gone ring answers: never a completion. -/
 theorem goneOut_no_cqe (op : ROp) : ∀ ud res buf, goneOut op ≠ .ring (.cqe ud res buf) := by
   intro ud res buf; cases op <;> simp [goneOut]
